@@ -207,6 +207,7 @@ class Outcome:
     exc: str = ""
     ren: Dict[str, str] = field(default_factory=dict)   # atom identifications the path implies
     trivial: List[Tuple[str, Mono]] = field(default_factory=list)  # group elements the path states to be trivial
+    plan: int = 0
 
 
 @dataclass
@@ -217,6 +218,7 @@ class Event:
     path: List[Tuple[str, bool]] = field(default_factory=list)
     ren: Dict[str, str] = field(default_factory=dict)
     trivial: List[Any] = field(default_factory=list)
+    plan: int = 0       # which re-interpretation (combination of choice points) produced it
 
 
 class Env(dict):
@@ -297,9 +299,11 @@ class Heads:
                 term = Rat(Poly.const(c))
                 for k, e in m:
                     if k == atom:
-                        if not e.is_const or e.c.denominator != 1 or int(e.c) % 2:
+                        # an even power (symbolic integer parameters included: 2n-2 is even for every integer n)
+                        coeffs = [e.c] + list(e.t.values())
+                        if any(c_.denominator != 1 or int(c_) % 2 for c_ in coeffs):
                             return None
-                        pw = sq.pow_lin(Lin(int(e.c) // 2))
+                        pw = sq.pow_lin(e.scale(Fraction(1, 2)))
                         if pw is None:
                             return None
                         term = term * pw
@@ -1023,15 +1027,16 @@ class Interp:
                 if isinstance(a, (QuantV, MeasV, LevelV)) or isinstance(b, (QuantV, MeasV, LevelV)):
                     self.events.append(Event("cmp", e, {"op": type(op).__name__, "left": a, "right": b, "func": fi.qual}))
                     r = self.dispatch(fi, e, env, None, cmp_vals=(a, b))
-                    return r if not isinstance(r, OpaqueV) else BoolV(None)
+                    return r if isinstance(r, NotImpl) else BoolV(None, cond=("cmp", e))
                 if isinstance(a, NumV) and isinstance(b, NumV):
                     self.events.append(Event("cmp", e, {"op": type(op).__name__, "left": a, "right": b, "func": fi.qual}))
+                    return BoolV(None, cond=("cmp", e))
                 return BoolV(None)
             if isinstance(op, (ast.Lt, ast.LtE, ast.Gt, ast.GtE)):
                 self.events.append(Event("cmp", e, {"op": type(op).__name__, "left": a, "right": b, "func": fi.qual}))
                 if isinstance(a, (QuantV, MeasV, LevelV)) or isinstance(b, (QuantV, MeasV, LevelV)):
                     self.dispatch(fi, e, env, None, cmp_vals=(a, b))
-                return BoolV(None)
+                return BoolV(None, cond=("cmp", e))
             if isinstance(op, (ast.In, ast.NotIn)):
                 return BoolV(None)
         else:
@@ -1135,6 +1140,13 @@ class Interp:
                     return NumV(self.heads.abs(v.rat), v.ut)
                 if isinstance(v, QuantV):
                     return self.dispatch(fi, e, env, None)
+                if isinstance(v, IntParam):
+                    # the sign of a symbolic integer is a choice point: |n| is n or -n
+                    i = len(self.choice_log)
+                    k = self.choice_plan[i] if i < len(self.choice_plan) else 0
+                    self.choice_log.append(2)
+                    self.choice_notes.append(("abs", [(f"{ast.unparse(e.args[0])} >= 0", k == 0)]))
+                    return v if k == 0 else IntParam("-" + v.name, -v.lin)
             if f.id == "divmod" and len(e.args) == 2:
                 a0, b0 = self.to_num(self.eval(fi, e.args[0], env)), self.to_num(self.eval(fi, e.args[1], env))
                 if a0 is not None and b0 is not None:
@@ -1180,6 +1192,16 @@ class Interp:
             if f.attr == "sqrt" and len(args) == 1 and isinstance(args[0], NumV):
                 ut = args[0].ut
                 return NumV(self.heads.sqrt(args[0].rat), self.unit_pow(ut, Lin(Fraction(1, 2))) if ut else None)
+            if f.attr == "fabs" and len(args) == 1 and isinstance(args[0], NumV):
+                return NumV(self.heads.abs(args[0].rat), args[0].ut)
+            if f.attr == "hypot" and args and all(isinstance(a, NumV) for a in args):
+                ut = args[0].ut  # type: ignore[union-attr]
+                total = Rat(Poly())
+                for a in args:
+                    total = total + a.rat * a.rat  # type: ignore[union-attr]
+                    if (a.ut is None) != (ut is None) or (ut is not None and a.ut is not None and not a.unit_type().same(args[0].unit_type())):  # type: ignore[union-attr]
+                        ut = None
+                return NumV(self.heads.sqrt(total), ut)
             if f.attr == "log" and args and all(isinstance(a, NumV) for a in args):
                 self.events.append(Event("log", e, {"arg": args[0], "func": fi.qual}))
                 x = args[0].rat  # type: ignore[union-attr]
